@@ -7,8 +7,8 @@
 
 #include "common.h"
 
-enum vstate { ST_IDLE = 0, ST_OWNER, ST_FETCHER, ST_CALLER, ST_OWNER_INFLIGHT, ST_SELF, ST_BUFFERED, ST_RICH, ST_PARTIAL_MSG, ST_PARTIAL_HTTP, NSTATES };
-static const char *const STN[] = {"idle", "owns-2-elements", "holds-2-fetches", "caller-in-flight", "owner-with-2-requests-in-flight", "caller-and-owner-of-same-request", "unsent-buffered-output", "everything-at-once", "mid-message", "mid-http-upgrade"};
+enum vstate { ST_IDLE = 0, ST_OWNER, ST_FETCHER, ST_CALLER, ST_OWNER_INFLIGHT, ST_SELF, ST_BUFFERED, ST_RICH, ST_PARTIAL_MSG, ST_PARTIAL_HTTP, ST_CALLER_ORPHAN, NSTATES };
+static const char *const STN[] = {"idle", "owns-2-elements", "holds-2-fetches", "caller-in-flight", "owner-with-2-requests-in-flight", "caller-and-owner-of-same-request", "unsent-buffered-output", "everything-at-once", "mid-message", "mid-http-upgrade", "caller-in-flight-to-owner-that-removed-its-last-element"};
 enum ending { E_FIN = 0, E_RST_EPOLL, E_RST_READ, E_RST_WRITE, E_OVERSIZE, E_BADJSON, E_WS_UNMASKED, E_WS_CLOSE, E_WS_RSV, NENDINGS };
 static const char *const ENDN[] = {"client-FIN", "reset(epoll ERR|HUP)", "reset(seen by read)", "reset(seen by writev)", "oversize-length", "invalid-JSON", "ws-unmasked-frame", "ws-close-frame", "ws-reserved-bit"};
 enum moment { M_ALONE = 0, M_WITH_MSG_FIRST, M_WITH_MSG_AFTER, M_WITH_TIMER_FIRST, M_WITH_TIMER_AFTER, NMOMENTS };
@@ -121,7 +121,8 @@ static void run(void)
 	if (en == E_RST_WRITE && !has_fetch) {
 		xp_end_run(); /* nothing makes the daemon write to the victim */
 	}
-	if ((mo == M_WITH_TIMER_FIRST || mo == M_WITH_TIMER_AFTER) && !(is_caller || owner_inflight || self)) {
+	bool orphan = st == ST_CALLER_ORPHAN;
+	if ((mo == M_WITH_TIMER_FIRST || mo == M_WITH_TIMER_AFTER) && !(is_caller || owner_inflight || self || orphan)) {
 		xp_end_run();
 	}
 	if (st == ST_BUFFERED && (en == E_RST_WRITE)) {
@@ -176,6 +177,20 @@ static void run(void)
 	if (is_caller) {
 		jx_sendf(V, "{\"id\":\"v6\",\"method\":\"call\",\"params\":{\"path\":\"bm\",\"args\":[1],\"timeout\":2}}");
 		jx_settle();
+	}
+	int O2 = -1;
+	if (orphan) {
+		/* an owner whose only element is removed while the victim's request to it is still unanswered */
+		O2 = jx_open(CL_RAW);
+		jx_sendf(O2, "{\"id\":\"o1\",\"method\":\"add\",\"params\":{\"path\":\"om\"}}");
+		jx_settle();
+		jx_sendf(V, "{\"id\":\"v8\",\"method\":\"call\",\"params\":{\"path\":\"om\",\"args\":[5],\"timeout\":2}}");
+		jx_settle();
+		jx_sendf(O2, "{\"id\":\"o2\",\"method\":\"remove\",\"params\":{\"path\":\"om\"}}");
+		jx_settle();
+		if (!jx_is_success(jx_find_response_str(O2, "o2", 0))) {
+			fail5("setup-failed", "the owner could not remove its method while a request was in flight");
+		}
 	}
 	if (owner_inflight) {
 		jx_sendf(C, "{\"id\":\"c-v\",\"method\":\"call\",\"params\":{\"path\":\"vm\",\"args\":[2],\"timeout\":2}}");
@@ -335,6 +350,23 @@ static void run(void)
 			fail5("dropped-request-still-answered", "the owner's reply to the departed victim's request produced output or cost the owner its connection");
 		}
 	}
+	if (orphan) {
+		int fo = clients[O2].nmsgs;
+		fs = clients[S].nmsgs;
+		fc = clients[C].nmsgs;
+		for (int i = 0; i < clients[O2].nmsgs; i++) {
+			if (clients[O2].msgs[i].cls == MC_ROUTED) {
+				jx_sendf(O2, "{\"id\":\"%s\",\"result\":\"late\"}", msg_id(&clients[O2].msgs[i])->valuestring);
+			}
+		}
+		jx_settle();
+		if (clients[S].nmsgs != fs || clients[C].nmsgs != fc || clients[O2].nmsgs != fo || sim_conn_closed_by_daemon(O2)) {
+			fail5("dropped-request-still-answered", "the (element-less) owner's reply to the departed victim's request produced output or cost the owner its connection");
+		}
+		/* the owner leaves too: nothing of the victim's request may be reached through its routing table */
+		sim_client_fin(O2);
+		jx_settle();
+	}
 	jx_expire_all_timers(0);
 	/* ---- others unaffected: probe suffix ---- */
 	(void)fromB_end;
@@ -397,6 +429,6 @@ const struct driver drv_c05 = {
     .name = "c05",
     .property = "C05",
     .run = run,
-    .rule = "product of 10 victim protocol states (idle, owning elements, holding fetches, caller in flight, owner with 2 requests in flight, caller and owner of the same request, unsent buffered output, all at once, mid message at every byte position, mid HTTP upgrade at every byte position) x 3 transports (tcp, unix socket, websocket) x 9 endings (FIN, reset seen by epoll / read / writev, oversize length, invalid JSON, ws unmasked frame, ws close frame, ws reserved bit) x 5 moments (alone; in the same harvested batch as a bystander's message or as the expiry of one of its requests, victim dispatched first / last); inapplicable combinations end at once; non-trivial = applicable combinations run to the end",
+    .rule = "product of 11 victim protocol states (caller in flight to an owner that removed its last element meanwhile, idle, owning elements, holding fetches, caller in flight, owner with 2 requests in flight, caller and owner of the same request, unsent buffered output, all at once, mid message at every byte position, mid HTTP upgrade at every byte position) x 3 transports (tcp, unix socket, websocket) x 9 endings (FIN, reset seen by epoll / read / writev, oversize length, invalid JSON, ws unmasked frame, ws close frame, ws reserved bit) x 5 moments (alone; in the same harvested batch as a bystander's message or as the expiry of one of its requests, victim dispatched first / last); inapplicable combinations end at once; non-trivial = applicable combinations run to the end",
     .assumptions = "the subscriber used for the checks subscribed before the victim (ordering effects of a failing subscriber in front of others are C11's subject)|heap is compared at the idle baseline after everybody left",
 };
